@@ -111,7 +111,7 @@ def eval_clause(src, env, old_env):
 def real_function(reg, c):
     mod = reg.module_for(c.file)
     o = mod
-    for p in c.qualname.split('.'):
+    for p in c.qualname.split('#')[0].split('.'):
         o = getattr(o, p)
     return o, mod
 
